@@ -61,7 +61,7 @@ class TreeGen:
             elif r < 0.78:
                 it = ('image', ' '.join(self.text()[1]), rng.choice(DESTS), rng.choice(TITLES))
             elif r < 0.82 and allow_link:
-                it = rng.choice([('auto', 'http://auto.link/p?q=1&r=2', False), ('auto', 'me@ex.am', True), ('auto', 'ftp://f.g/h', False)])
+                it = rng.choice([('auto', 'http://auto.link/p?q=1&r=2', False), ('auto', 'me@ex.am', True), ('auto', 'ftp://f.g/h', False), ('auto', 'http://user@host.ex/p', False), ('auto', 'x@mailto.ex', True), ('auto', 'mailto:you@ex.am', False)])
             elif r < 0.87:
                 it = ('esc', rng.choice(PUNCT))
             elif r < 0.92:
